@@ -25,7 +25,9 @@ StreamPkgs == {<<[cf |-> Out(a, sty), lb |-> Out(b, "plain"), fail |-> "none", h
               \cup
               {<<[cf |-> Out(b, "plain"), lb |-> Out(a, sty), fail |-> "none", how |-> "status"]>> :
                     a \in Seqs(TokAlpha, MaxToks), b \in Seqs(TokAlpha, 1), sty \in Styles}
-MergeAlpha == IF MergeFull THEN TokAlpha
+MergeAlpha == IF MergeFull
+              THEN {t \in TokAlpha : t \in {<<45, 73, 47, 97>>, <<45, 108, 102, 111, 111>>, <<45, 68, 88, 61, 49>>,
+                                           <<45, 112, 116, 104, 114, 101, 97, 100>>}}      \* -I/a -lfoo -DX=1 -pthread
               ELSE {t \in TokAlpha : t \in {<<45, 73, 47, 97>>, <<45, 108, 102, 111, 111>>}}      \* -I/a -lfoo
 Hows(f) == IF f = "none" THEN {"status"} ELSE {"status", "signal", "undecodable"}
 OnePkg(n) == UNION {{[cf |-> Out(a, "plain"), lb |-> Out(b, "plain"), fail |-> f, how |-> h] :
